@@ -41,6 +41,7 @@ import BU.Properties.C11_GenTop
 #print axioms C11GenInit.gen_get_segwit_address
 #print axioms C11GenInit.gen_is_address_bech32
 #print axioms C11GenInit.gen_predicate
+#print axioms C11GenInit.gen_segwit_init_script
 #print axioms C11GenTop.lowerA_eq
 #print axioms C11GenTop.upperA_eq
 #print axioms C11GenTop.any_eq
